@@ -409,6 +409,9 @@ more:
 	tmp = strtol(spec, &on, 10);
 	if (UNLIKELY(on == NULL)) {
 		return 0;
+	} else if (UNLIKELY(tmp > 366 || tmp < -366)) {
+		/* out of range, and not to be summed up */
+		return 0;
 	}
 	/* -0 has a direction too */
 	neg = *spec == '-';
